@@ -105,6 +105,7 @@ GROUP = {
     "emodulus": "emodulus", "fl1_max_ctc": "ctc", "fl2_max_ctc": "ctc",
     "fl3_max_ctc": "ctc", "area_um": "area_um", "time": "time", "volume": "volume",
     "ml_class": "ml_class", "plug_s": "plugin", "plug_t": "plugin", "plug_n": "plugin",
+    "plug_a": "plugin",
     "deform": "basic", "aspect": "basic", "area_ratio": "basic", "index": "basic",
     "bright_avg": "image", "bright_sd": "image", "bright_bc_avg": "image",
     "bright_bc_sd": "image", "bright_perc_10": "image", "bright_perc_90": "image",
@@ -113,12 +114,12 @@ GROUP = {
 }
 READ_POOL = (["emodulus"] * 5 + ["fl1_max_ctc", "fl2_max_ctc", "fl3_max_ctc"] * 2
              + ["area_um", "time", "volume"] * 2 + ["ml_class"] * 4
-             + ["plug_s"] * 3 + ["plug_t"] * 2 + ["plug_n"] * 3
+             + ["plug_s"] * 3 + ["plug_t"] * 2 + ["plug_n"] * 3 + ["plug_a"] * 4
              + ["deform", "aspect", "area_ratio", "index", "bright_avg", "bright_sd",
                 "bright_bc_avg", "bright_bc_sd", "bright_perc_10", "bright_perc_90",
                 "inert_ratio_cvx", "inert_ratio_prnc", "inert_ratio_raw", "tilt"])
 WARM = ["emodulus", "fl1_max_ctc", "fl2_max_ctc", "fl3_max_ctc", "area_um", "time",
-        "volume", "ml_class", "plug_s", "plug_n"]
+        "volume", "ml_class", "plug_s", "plug_n", "plug_a"]
 #: features populated by the same recipe call (documented: "all ancillary features
 #: that share the same method will also be populated automatically")
 SIBLINGS = [{"bright_avg", "bright_sd"}, {"bright_bc_avg", "bright_bc_sd"},
@@ -131,6 +132,9 @@ ING = {
     "ml_class": {"ml_score_aaa", "ml_score_bbb", "ml_score_ccc"},
     "plug_s": {"uk", "tmp_a", "plugin"}, "plug_t": {"uk", "tmp_a", "plugin"},
     "plug_n": {"um", "plugin"},
+    # requires the ancillary feature area_um (which depends on the pixel size)
+    # without listing that configuration key itself
+    "plug_a": {"px", "plugin"},
 }
 KEY_TO_FEATS = {}
 for _f, _ings in ING.items():
@@ -168,7 +172,8 @@ def st_op(draw):
         then = None
         if draw(st.integers(0, 9)) < (9 if key in CT or key == "vm" else 6):
             then = draw(st.sampled_from(
-                ["volume", "area_um", "volume", "emodulus", "area_um"] if key == "px"
+                ["volume", "area_um", "plug_a", "plug_a", "emodulus", "plug_a"]
+                if key == "px"
                 else KEY_TO_FEATS[key]))
         if kind == "set":
             return ["set", key, _vidx(draw, key), then]
@@ -182,7 +187,7 @@ def st_op(draw):
     if kind in ("plug", "unplug"):
         then = None
         if draw(st.integers(0, 9)) < 6:
-            then = draw(st.sampled_from(["plug_s", "plug_t", "plug_n"]))
+            then = draw(st.sampled_from(["plug_s", "plug_t", "plug_n", "plug_a"]))
         if kind == "plug":
             return ["plug", draw(st.integers(0, 1)), then]
         return ["unplug", then]
@@ -346,6 +351,14 @@ def _plug_n_1(ds):
     return np.asarray(ds["image"][:], dtype=float)[:, :2, :3] + m
 
 
+def _plug_a_0(ds):
+    return np.asarray(ds["area_um"][:], dtype=float) / 2
+
+
+def _plug_a_1(ds):
+    return np.asarray(ds["area_um"][:], dtype=float) / 2 + 1.0
+
+
 def _plug_n_check(ds):
     """requirement function with a non-boolean (hashed) return value"""
     if "m" in ds.config["user"]:
@@ -366,8 +379,12 @@ def register_plugins(variant):
               "features required": ["image"],
               "method check required": _plug_n_check,
               "version": f"0.{variant}.0"}
+    info_a = {"method": [_plug_a_0, _plug_a_1][variant],
+              "feature names": ["plug_a"],
+              "features required": ["area_um"],
+              "version": f"0.{variant}.0"}
     return [PlugInFeature("plug_s", info_st), PlugInFeature("plug_t", info_st),
-            PlugInFeature("plug_n", info_n)]
+            PlugInFeature("plug_n", info_n), PlugInFeature("plug_a", info_a)]
 
 
 # ------------------------------------------------------------------ simulator
@@ -532,6 +549,8 @@ class Sim:
             return self.variant is not None and "tmp_a" in self.temps and "uk" in c
         if f == "plug_n":
             return self.variant is not None and has("image") and "um" in c
+        if f == "plug_a":
+            return self.variant is not None and self.avail("area_um")
         if f == "emodulus":
             return self.emod_scenario() != "none"
         raise ValueError(f)
@@ -609,6 +628,9 @@ class Sim:
             if f == "plug_s":
                 return a * k if self.variant == 0 else a * k - 1.0
             return a + k if self.variant == 0 else a + 2 * k
+        if f == "plug_a":
+            a = np.asarray(self.direct("area_um"), dtype=float) / 2
+            return a if self.variant == 0 else a + 1.0
         if f == "plug_n":
             img = np.asarray(d["image"], dtype=float)[:, :2, :3]
             return img * c["um"] if self.variant == 0 else img + c["um"]
